@@ -254,13 +254,15 @@ def gen_group(rng, cv, sysname, count):
             out.append("ed1 %s %d %s" % (op, rng.below(2), ptok(rng, cv, P, rep_of(op, sysname))))
         else:
             P, Q = point(rng, cv, pool), point(rng, cv, pool)
-            j = rng.below(4)
+            j = rng.below(6)
             if j == 0:
                 Q = P
             elif j == 1:
-                Q = cv.neg(P)
+                Q = cv.neg(P)                         # same y, opposite x
             elif j == 2:
                 Q = cv.add(P, rng.choice(T))
+            elif j == 3:
+                Q = (P[0], (-P[1]) % cv.p)            # same x, opposite y (= -P + (0,-1))
             rp = "P" if sysname != "extnd" else "PE"
             out.append("ed2 cmp 0 %s %s" % (ptok(rng, cv, P, rp), ptok(rng, cv, Q, rp)))
     return out
